@@ -67,13 +67,14 @@ def start_builds(ctx):
     """compile the harness binaries in the background while the translator and lake run"""
     quick = ctx.tier == "quick"
     src_inc = "-I" + os.path.join(vlib.REPO, "src")
-    jobs = {"asan": ("c15_omp.cpp", "c15_omp", quick_flags() if quick else vlib.HARNESS_FLAGS + [src_inc], "g++"),
+    jobs = {"asan": ("c15_omp.cpp", "c15_omp_q" if quick else "c15_omp_t", quick_flags() if quick else vlib.HARNESS_FLAGS + [src_inc], "g++"),
             "emb": ("c15_omp.cpp", "c15_emb", emb_flags(), "g++")}
     tree = sched_tree(ctx)
     jobs["sched"] = ("c15_omp.cpp", "c15_sched", sched_flags(tree), "g++")
     if not quick:
         jobs["fib"] = ("c15_omp.cpp", "c15_fib", quick_flags() + ["-DTAPKEE_USE_FIBONACCI_HEAP"], "g++")
         jobs["tsan"] = ("c15_omp.cpp", "c15_tsan", tsan_flags(), "clang++-14")
+    _JOBS.update(jobs)
     ex = concurrent.futures.ThreadPoolExecutor(max_workers=len(jobs))
     for k, v in jobs.items():
         _BUILDS[k] = ex.submit(ctx.build_harness, v[0], v[1], (), v[2], v[3])
@@ -225,8 +226,9 @@ def gen_params(rng, r, quick, hunt):
         p = {"N": N, "D": rng.range(2, 5), "k": rng.range(d + 2, min(10, N - 1)), "d": d}
     elif r == "whes":
         N = rng.range(30, 80) if big else rng.range(10, 24)
-        d = rng.range(1, 2)       # d >= 3 runs into F-HLLE-CT (property C01/C08), not a C15 matter
-        need = 1 + d + d * (d + 1) // 2
+        d = rng.range(1, 3)
+        need = 1 + d + d * (d + 1) // 2       # columns of Yi
+        N = max(N, need + 4)
         p = {"N": N, "D": rng.range(2, 5), "k": rng.range(need + 1, min(need + 5, N - 1)), "d": d}
     else:
         raise ValueError(r)
@@ -236,12 +238,26 @@ def gen_params(rng, r, quick, hunt):
     return p
 
 
+_JOBS = {}
+
+
 class Runner:
     def __init__(self, ctx, binary, label, env=None):
         self.ctx, self.binary, self.label, self.env = ctx, binary, label, env or {}
 
     def run(self, lines):
-        return self.ctx.run_impl_cases(self.binary, lines, env=self.env, timeout=900)
+        for attempt in range(2):
+            if not os.path.exists(self.binary):
+                # a concurrent check of another tree / tier dropped the cached binary: build it again
+                v = _JOBS.get(self.label.split(":")[0].replace("asan-env", "asan"))
+                if v:
+                    self.binary = self.ctx.build_harness(v[0], v[1], (), v[2], v[3])[0] or self.binary
+            try:
+                return self.ctx.run_impl_cases(self.binary, lines, env=self.env, timeout=900)
+            except FileNotFoundError:
+                if attempt:
+                    raise
+        return []
 
 
 def judge_group(ctx, runner, r, p, threads, reps, label):
@@ -492,50 +508,52 @@ def emb_groups(ctx, runner, quick, hunt):
     for m in EMB_METHODS:
         for gi in range(n_groups):
             N = r.range(24, 40) if gi % 2 == 0 else r.range(12, 22)
-            d = 2
-            k = r.range(7, 9)
-            p = {"N": N, "D": 3, "k": k, "d": d, "m": m, "seed": r.below(1 << 30) + 1, "L": max(6, N // 2), "w": 4}
-            threads = THREADS
-            lines = [case_line("emb", T, p, reps=2, dump=1) for T in threads]
-            outs = [parse_out(o) for o in runner.run(lines)]
-            ctx.stat("routine:emb:" + m, len(lines) * 2)
-            if any("err" in o for o in outs):
-                errs = sorted(set(o["err"] for o in outs if "err" in o))
-                if len(errs) == 1 and all("err" in o for o in outs) and errs[0].startswith("exc:"):
-                    # the method rejects this input for every thread count alike (e.g. a numerically singular problem)
-                    ctx.stat("emb-exception-all-threads")
-                    continue
-                ctx.fail("diff:emb:" + m, "method %s: outcome depends on the thread count: %s" % (m, errs[:3]),
-                         case={"routine": "emb", "params": p, "threads": threads, "reps": 2, "build": "emb", "line": lines[0]})
+            p = {"N": N, "D": 3, "k": r.range(7, 9), "d": 2, "m": m, "seed": r.below(1 << 30) + 1, "L": max(6, N // 2), "w": 4}
+            emb_one(ctx, runner, p, THREADS)
+
+
+def emb_one(ctx, runner, p, threads):
+    m, N, d = p["m"], p["N"], p["d"]
+    lines = [case_line("emb", T, p, reps=2, dump=1) for T in threads]
+    outs = [parse_out(o) for o in runner.run(lines)]
+    ctx.stat("routine:emb:" + m, len(lines) * 2)
+    if any("err" in o for o in outs):
+        errs = sorted(set(o["err"] for o in outs if "err" in o))
+        if len(errs) == 1 and all("err" in o for o in outs) and errs[0].startswith("exc:"):
+            # the method rejects this input for every thread count alike (e.g. a numerically singular problem)
+            ctx.stat("emb-exception-all-threads")
+            return
+        ctx.fail("diff:emb:" + m, "method %s: outcome depends on the thread count: %s" % (m, errs[:3]),
+                 case={"routine": "emb", "params": p, "threads": threads, "reps": 2, "build": "emb", "line": lines[0]})
+        return
+    ref = outs[0]
+    rh = ref["hashes"][0]
+    ry = parse_dense(ref["vals"][rh])
+    rg = gram(ry, N, d)
+    rp = parse_dense(ref["pres"].get(rh, "-"))
+    for T, o, line in zip(threads, outs, lines):
+        ctx.count("emb %s N=%d seed=%s T=%d" % (m, N, p["seed"], T), nontrivial=T >= 2, n=2)
+        ctx.cov["traces_validated_against_impl"] += 2
+        for h in sorted(set(o["hashes"])):
+            if h == rh:
+                ctx.stat("emb:bit-identical", o["hashes"].count(h))
                 continue
-            ref = outs[0]
-            rh = ref["hashes"][0]
-            ry = parse_dense(ref["vals"][rh])
-            rg = gram(ry, N, d)
-            rp = parse_dense(ref["pres"].get(rh, "-"))
-            for T, o, line in zip(threads, outs, lines):
-                ctx.count("emb %s N=%d seed=%s T=%d" % (m, N, p["seed"], T), nontrivial=T >= 2, n=2)
-                ctx.cov["traces_validated_against_impl"] += 2
-                for h in sorted(set(o["hashes"])):
-                    if h == rh:
-                        ctx.stat("emb:bit-identical", o["hashes"].count(h))
-                        continue
-                    okp, whyp, _, _ = compare_maps(rp, parse_dense(o["pres"].get(h, "-")), TOL_INTERMEDIATE, "eigenproblem:" + m)
-                    okg, whyg, ne, nt = compare_maps(rg, gram(parse_dense(o["vals"][h]), N, d), TOL_GRAM, "gram:" + m)
-                    ctx.stat("emb:gram-entries-identical", ne)
-                    ctx.stat("emb:gram-entries-within-1e-6", nt)
-                    if not okp:
-                        ctx.fail("diff:emb-pre:" + m,
-                                 "method %s: the matrix handed to the eigensolver with %d threads differs from the single-threaded one "
-                                 "beyond 1e-10 relative: %s" % (m, T, whyp),
-                                 case={"routine": "emb", "params": p, "threads": [1, T], "reps": 2, "build": "emb", "line": line})
-                        break
-                    if not okg:
-                        ctx.fail("diff:emb-gram:" + m,
-                                 "method %s: Gram matrix of the embedding with %d threads differs from the single-threaded one beyond "
-                                 "1e-6 relative: %s" % (m, T, whyg),
-                                 case={"routine": "emb", "params": p, "threads": [1, T], "reps": 2, "build": "emb", "line": line})
-                        break
+            okp, whyp, _, _ = compare_maps(rp, parse_dense(o["pres"].get(h, "-")), TOL_INTERMEDIATE, "eigenproblem:" + m)
+            okg, whyg, ne, nt = compare_maps(rg, gram(parse_dense(o["vals"][h]), N, d), TOL_GRAM, "gram:" + m)
+            ctx.stat("emb:gram-entries-identical", ne)
+            ctx.stat("emb:gram-entries-within-1e-6", nt)
+            if not okp:
+                ctx.fail("diff:emb-pre:" + m,
+                         "method %s: the matrix handed to the eigensolver with %d threads differs from the single-threaded one "
+                         "beyond 1e-10 relative: %s" % (m, T, whyp),
+                         case={"routine": "emb", "params": p, "threads": [1, T], "reps": 2, "build": "emb", "line": line})
+                return
+            if not okg:
+                ctx.fail("diff:emb-gram:" + m,
+                         "method %s: Gram matrix of the embedding with %d threads differs from the single-threaded one beyond "
+                         "1e-6 relative: %s" % (m, T, whyg),
+                         case={"routine": "emb", "params": p, "threads": [1, T], "reps": 2, "build": "emb", "line": line})
+                return
 
 
 # ----------------------------------------------------------------------------- builds
@@ -613,6 +631,10 @@ def tsan_run(ctx, binary):
                 p["k"] = max(p["k"], 1 + p["d"] + p["d"] * (p["d"] + 1) // 2 + 1)
             for T in (2, 8):
                 lines.append((routine, case_line(routine, T, p, reps=2)))
+    tsan_lines(ctx, binary, lines)
+
+
+def tsan_lines(ctx, binary, lines):
     archer = "/usr/lib/llvm-14/lib/libarcher.so"
     env = {"TSAN_OPTIONS": "halt_on_error=0:report_signal_unsafe=0:exitcode=0:ignore_noninstrumented_modules=1",
            "OMP_TOOL_LIBRARIES": archer if os.path.exists(archer) else ""}
@@ -620,6 +642,7 @@ def tsan_run(ctx, binary):
     for routine, line in lines:
         rc, out, err = ctx.run_impl(binary, [line], env=env, timeout=600)
         ctx.stat("tsan-runs")
+        ctx.count("tsan " + line, nontrivial=True)
         races = re.findall(r"WARNING: ThreadSanitizer: data race.*?(?=\n\n|\Z)", err, re.S)
         tap = [x for x in races if "/tapkee/" in x or "/src/cli/" in x]
         if tap:
@@ -627,32 +650,60 @@ def tsan_run(ctx, binary):
             reports.append({"routine": routine, "line": line, "n_reports": len(tap), "first": tap[0][:1500]})
             ctx.fail("tsan:%s" % routine,
                      "ThreadSanitizer (clang-14, libomp + Archer) reports a data race in routine %s%s" % (
-                         routine, " at %s %s" % (frame.group(1), os.path.basename(frame.group(2))) if frame else ""),
-                     case={"routine": routine, "line": line, "build": "tsan"}, detail={"report": tap[0][:3000]})
+                         routine, " at %s" % os.path.basename(frame.group(2)) if frame else ""),
+                     case={"routine": routine, "params": dict(t.split("=", 1) for t in line.split()[1:] if not t.startswith(("r=", "T=", "reps="))),
+                           "threads": [int(re.search(r"T=(\d+)", line).group(1))], "line": line, "build": "tsan"},
+                     detail={"report": tap[0][:3000]})
         elif races:
             ctx.stat("tsan-reports-outside-tapkee", len(races))
-        if rc not in (0,) and not out:
+        if not out or not out[0].startswith("ok"):
             ctx.stat("tsan-run-failed")
-    ctx.extra["tsan"] = {"runs": len(lines), "archer": os.path.exists(archer), "reports_in_tapkee": reports}
+    ctx.extra["tsan"] = {"runs": len(lines), "archer": os.path.exists(archer), "reports_in_tapkee": reports,
+                         "compiler": "clang++-14 -fsanitize=thread -fopenmp (libomp.so.5, libarcher.so)"}
 
 
 # ----------------------------------------------------------------------------- replay
-def replay_case(ctx, runners):
-    c = ctx.replay.get("case")
+def replay_case(ctx, replay):
+    """check.py replay <file>: re-run exactly the recorded case (routine + input + thread counts) on the current tree,
+    many repetitions (a race is schedule dependent)"""
+    c = replay.get("case")
     if not isinstance(c, dict) or "routine" not in c:
+        ctx.log("replay file has no routine case (a broken obligation is re-checked by the build above)")
         return
     label = c.get("build", "asan")
-    runner = runners.get(label) or runners.get("asan")
-    if runner is None:
+    if not _BUILDS:
+        start_builds(ctx)
+    key = {"asan": "asan", "asan-env": "asan", "sched": "sched", "fib": "fib", "emb": "emb", "tsan": "tsan"}.get(label, "asan")
+    if key not in _BUILDS:
+        key = "asan"
+    binary, log = _BUILDS[key].result()
+    if not binary:
+        ctx.broken("harness-build:" + key, "harness c15_omp.cpp (%s build)" % key, "harness does not compile: " + log[-800:])
         return
+    env = {}
+    if str(c.get("env", "")).startswith("OMP_SCHEDULE="):
+        env["OMP_SCHEDULE"] = c["env"].split("=", 1)[1]
+    runner = Runner(ctx, binary, key, env=env)
     r, p = c["routine"], c.get("params", {})
-    ths = c.get("threads", THREADS)
-    ctx.log("replaying", r, p, "threads", ths, "build", label)
+    ths = sorted(set([1] + [t for t in c.get("threads", THREADS) if t > 0]))
+    ctx.log("replaying", r, p, "threads", ths, "build", key, env)
     if r == "emb":
+        _SUMMARY.setdefault("regions", [])
+        saved = list(EMB_METHODS)
+        try:
+            EMB_METHODS[:] = [p.get("m", "isomap")]
+            for _ in range(3):
+                emb_one(ctx, runner, p, ths)
+        finally:
+            EMB_METHODS[:] = saved
         return
-    for _ in range(5):
-        if not judge_group(ctx, runner, r, p, sorted(set([1] + ths)), max(6, c.get("reps", 4)), label):
+    if key == "tsan":
+        tsan_lines(ctx, binary, [(r, c.get("line") or case_line(r, ths[-1], p, reps=2))])
+        return
+    for _ in range(6):
+        if not judge_group(ctx, runner, r, p, ths, max(6, c.get("reps", 4)), key):
             return
+    ctx.log("replayed case holds on the current tree (%d runs)" % (6 * len(ths) * max(6, c.get("reps", 4))))
 
 
 # ----------------------------------------------------------------------------- main
@@ -721,9 +772,6 @@ def correspond(ctx):
     if "asan" not in runners:
         return
 
-    if getattr(ctx, "replay", None):
-        replay_case(ctx, runners)
-
     # ---- the model itself, and the table against the running code
     model_selftest(ctx)
     if translator_ok:
@@ -737,6 +785,19 @@ def correspond(ctx):
         pass
     reps = 3 if quick else 10
     groups = 3 if quick else 14
+    # corpus first
+    cdir = os.path.join(vlib.ROOT, "corpus", "C15")
+    if os.path.isdir(cdir):
+        for fn in sorted(os.listdir(cdir)):
+            for l in open(os.path.join(cdir, fn)):
+                l = l.strip()
+                if not l.startswith("omp "):
+                    continue
+                fs = dict(t.split("=", 1) for t in l.split()[1:])
+                routine = fs.pop("r")
+                p = {k: int(v) for k, v in fs.items() if k not in ("T", "reps")}
+                ctx.stat("corpus-cases")
+                judge_group(ctx, runners["asan"], routine, p, THREADS, 4, "asan")
     if hunt:
         reps, groups = reps * 2, groups * 2
     failed = set()
@@ -811,7 +872,8 @@ def correspond(ctx):
 
     regs = _SUMMARY.get("regions") or []
     ctx.extra["regions"] = [{"name": g["name"], "file": g["file"], "line": g["line"], "loop": "%s in [%s, %s)" % (g["loopVar"], g["loopLo"], g["loopHi"]),
-                             "shared_written": g["arrays"], "private": g["privateNames"], "accesses": len(g["accesses"]),
+                             "shared_written": g["arrays"], "private": g["privateNames"],
+                             "scratch_carried_across_iterations_of_a_thread": g.get("carriedScratch", []), "accesses": len(g["accesses"]),
                              "critical_accesses": sum(1 for a in g["accesses"] if a["critical"]),
                              "reentrant_calls_assumed": g["reentrantCalls"], "flags": g["flags"]} for g in regs]
     ctx.extra["pragmas"] = len(_SUMMARY.get("pragmas") or [])
